@@ -241,6 +241,28 @@ def run(ck):
         _ctorfail(ck, sw)
 
     jobs.append((ctorfail, ()))
+
+    def large():
+        """Scripted: buffers of 2 MiB and more (huge-page territory), exact and rounded-up requests, with and
+        without prefault: a short life (claims across the end of the ring, commits, consumes, Prefault) and
+        Destroy with its census. The model covers up to 16 pages; the monitor does not depend on the size."""
+        M = 1 << 20
+        hs = []
+        for req in (2 * M, 2 * M + 4096, 3 * M + 1, 8 * M) + (() if quick else (2 * M - 4096, 4 * M, 16 * M + 4096, 64 * M)):
+            for pf in (0, 1):
+                size = -(-req // 4096) * 4096
+                h = [dict(ev="New", n=req, page=4096, pf=pf), dict(ev="Claim", n=3000), dict(ev="Commit", n=3000),
+                     dict(ev="Claim", n=size - 4096), dict(ev="Commit", n=size - 4096), dict(ev="Consume", n=size - 5000),
+                     dict(ev="Claim", n=8192), dict(ev="Commit", n=8192), dict(ev="Prefault", n=0), dict(ev="Consume", n=4096),
+                     dict(ev="Claim", n=size + 1), dict(ev="Destroy", n=0)]
+                hs.append(h)
+        beh = os.path.join(ck.work, "beh_large.jsonl")
+        with open(beh, "w") as f:
+            for h in hs:
+                f.write(json.dumps(h) + "\n")
+        _validate(ck, sw, "large", beh, "scripted: buffers of 2 MiB and more, prefault on/off, Destroy census")
+
+    jobs.append((large, ()))
     pages_list = [1, 2, 3, 4, 5, 6, 8]
     s = ck.seed
     if quick:
